@@ -282,6 +282,92 @@ def run_history(rng, counters, digests, samples, violations, known, world_ops=No
         samples.append({"ops": log[:14], "n_ops": len(log), "rejected": rejected, "propagated_with_runs": propagated})
 
 
+def same_object_case(counters, digests, violations):
+    """While frozen, a plain value is assigned that is the VERY OBJECT the location already holds, after that object
+    changed (through the manager under another location that holds the same object, or in place followed by the
+    re-assignment that tells the manager about it): the dependants of the assigned location must be updated exactly
+    as on a manager that was never frozen.  Item and attribute forms, list / dict / object values."""
+    import xdeps
+
+    class Obj:
+        pass
+
+    def build(flavour):
+        if flavour == "list":
+            shared = [1.0, 2.0]
+            get0 = lambda r: r[0]
+            get1 = lambda r: r[1]
+        elif flavour == "dict":
+            shared = {"u": 1.0, "v": 2.0}
+            get0 = lambda r: r["u"]
+            get1 = lambda r: r["v"]
+        else:
+            shared = Obj()
+            shared.u, shared.v = 1.0, 2.0
+            get0 = lambda r: r.u
+            get1 = lambda r: r.v
+        return shared, get0, get1
+
+    for flavour in ("list", "dict", "obj"):
+        for form in ("item", "attr"):
+            runs = {}
+            for frozen in (True, False):
+                shared, get0, get1 = build(flavour)
+                if form == "item":
+                    cont = {"p": shared, "q": shared, "s": 0.0, "t": 0.0}
+                else:
+                    cont = Obj()
+                    cont.p, cont.q, cont.s, cont.t = shared, shared, 0.0, 0.0
+                m = xdeps.Manager()
+                r = m.ref(cont, "r")
+                at = (lambda n: r[n]) if form == "item" else (lambda n: getattr(r, n))
+                put = (lambda n, v: r.__setitem__(n, v)) if form == "item" else (lambda n, v: setattr(r, n, v))
+                val = (lambda n: cont[n]) if form == "item" else (lambda n: getattr(cont, n))
+                put("s", get0(at("q")) * 10 + get1(at("q")))
+                put("t", at("s") + 0.5)
+                if frozen:
+                    m.freeze_tree()
+                trace = [(val("s"), val("t"))]
+                # (1) the shared object changes through the manager under its OTHER location, then is assigned to q
+                if flavour == "list":
+                    at("p")[0] = 7.0
+                elif flavour == "dict":
+                    at("p")["u"] = 7.0
+                else:
+                    at("p").u = 7.0
+                put("q", at("p")._value)
+                trace.append((val("s"), val("t")))
+                # (2) the object is changed in place and assigned again (the way to tell the manager)
+                if flavour == "list":
+                    shared[1] = 5.0
+                elif flavour == "dict":
+                    shared["v"] = 5.0
+                else:
+                    shared.v = 5.0
+                put("q", shared)
+                trace.append((val("s"), val("t")))
+                # (3) an equal but DIFFERENT object
+                import copy
+                other = copy.copy(shared)
+                if flavour == "list":
+                    other[0] = 9.0
+                elif flavour == "dict":
+                    other["u"] = 9.0
+                else:
+                    other.u = 9.0
+                put("q", other)
+                trace.append((val("s"), val("t")))
+                runs[frozen] = trace
+            want = [(12.0, 12.5), (72.0, 72.5), (75.0, 75.5), (95.0, 95.5)]
+            counters["same_object_assignments_checked"] = counters.get("same_object_assignments_checked", 0) + 2
+            if runs[True] != runs[False] or runs[False] != want:
+                violations.append({"what": "C17 %s value, %s form: assigning the object a location already holds (after it changed) while frozen: "
+                                           "dependants (s, t) go through %s, on a never-frozen manager %s, expected %s" % (
+                                               flavour, form, runs[True], runs[False], want)})
+                return
+            digests.add(digest(["same-object", flavour, form]))
+
+
 def run_shard(spec):
     rng = random.Random("C17:%s:%s" % (spec["seed"], spec["shard"]))
     mgrmon.install_reach_counters()
@@ -292,6 +378,8 @@ def run_shard(spec):
         wit = spec["replay"]
         run_history(rng, counters, digests, samples, violations, known, (wit["world"], wit["ops"]))
         return {"evaluations": 1, "digests": [], "samples": [], "counters": counters, "violations": violations, "known": known}
+    if spec["shard"] < 2:
+        same_object_case(counters, digests, violations)
     for h in range(spec["histories"]):
         mgrmon.set_shuffle_rng(random.Random(rng.random()) if rng.random() < 0.5 else None)
         run_history(rng, counters, digests, samples, violations, known)
